@@ -6,6 +6,7 @@ from checks import sysmon
 
 def run(ctx):
     findings = load_findings('C15')
+    translate(ctx, ['consts'])
     lean_props(ctx)
     if cargo_harness(ctx, ['h_l1']):
         w = ctx.work
